@@ -1203,7 +1203,7 @@ pub fn run(args: &Args, out: &mut Out) {
             let seed = rng4.next() >> 16;
             let (_, shape) = wave::wave_program(&mut Rng::new(seed));
             hist.add(&format!("wave-helpers={}", shape.helpers));
-            hist.add(if shape.mesh { "wave-pipeline=mesh+pixel" } else { "wave-pipeline=compute" });
+            hist.add(if shape.task { "wave-pipeline=task+mesh+pixel" } else if shape.mesh { "wave-pipeline=mesh+pixel" } else { "wave-pipeline=compute" });
             hist.add(&format!("wave-lane-index-readers={}", shape.lane_index.min(3)));
             hist.add(&format!("wave-lane-count-readers={}", shape.lane_count.min(3)));
             hist.add(&format!("wave-default-arguments-reading-lane+global={}", shape.defaults.min(3)));
